@@ -324,3 +324,234 @@ Proof.
   unfold mtarget. rewrite Hg. now left.
 Qed.
 Print Assumptions block_measures_products.
+
+(* ---------- the whole instruction: blocks of pairwise disjoint products ---------- *)
+Inductive item := Block (gs : list (acc * list nat)) | Pad (sign : bool).
+Definition render_item (i : item) : list oinstr :=
+  match i with
+  | Block gs => flush (buffer_all gs mbuf0)
+  | Pad s => [(GMPAD, [OQ (if s then 1 else 0) false])]
+  end.
+Definition render (l : list item) : list oinstr := flat_map render_item l.
+Definition close (cur : list (acc * list nat)) : list item := match cur with [] => [] | _ => [Block cur] end.
+
+(* the same walk as Mpp.mpp_go, keeping the buffered products instead of the buffers *)
+Fixpoint mpp_spec (fuel n : nat) (ts : list mtgt) (cur : list (acc * list nat)) (out : list item) : option (list item) :=
+  match ts with
+  | [] => Some (out ++ close cur)
+  | _ =>
+    match fuel with
+    | 0 => None
+    | S fuel' =>
+      let (g, rest) := split_group ts in
+      match accumulate g acc0 [] false with
+      | None => None
+      | Some (a, _) =>
+        if aimag a then None
+        else
+          let sup := active n a in
+          match sup with
+          | [] => mpp_spec fuel' n rest [] (out ++ close cur ++ [Pad (asign a)])
+          | _ =>
+            if overlaps sup (flat_map snd cur) then mpp_spec fuel' n rest [(a, sup)] (out ++ close cur)
+            else mpp_spec fuel' n rest (cur ++ [(a, sup)]) out
+          end
+      end
+    end
+  end.
+
+Lemma buffer_all_app gs1 gs2 b : buffer_all (gs1 ++ gs2) b = buffer_all gs2 (buffer_all gs1 b).
+Proof. revert b; induction gs1 as [|[a s] gs1 IH]; intros b; cbn; [reflexivity| apply IH]. Qed.
+Lemma flush_empty : flush mbuf0 = []. Proof. reflexivity. Qed.
+Lemma render_close cur : Forall (fun g => snd g <> []) cur -> render (close cur) = flush (buffer_all cur mbuf0).
+Proof. destruct cur as [|g cur]; intros H; [reflexivity|]. cbn [close render flat_map render_item]. now rewrite app_nil_r. Qed.
+Lemma render_app a b : render (a ++ b) = render a ++ render b. Proof. apply flat_map_app. Qed.
+Lemma merged_buffer_all cur : Forall (fun g => snd g <> []) cur -> merged (buffer_all cur mbuf0) = flat_map snd cur.
+Proof. intros H. destruct (buffer_all_spec cur mbuf0 H) as (_ & _ & _ & _ & E). exact E. Qed.
+Lemma with_merged_eta b sup :
+  {| h_xz := h_xz b; h_yz := h_yz b; cnot := cnot b; meas := meas b; merged := merged b ++ sup |} = with_merged b sup.
+Proof. reflexivity. Qed.
+
+Theorem mpp_go_is_render_of_spec fuel n : forall ts cur out,
+  Forall (fun g => snd g <> []) cur ->
+  mpp_go fuel n ts (buffer_all cur mbuf0) (render out) = option_map render (mpp_spec fuel n ts cur out).
+Proof.
+  induction fuel as [|fuel IH]; intros ts cur out Hne.
+  - destruct ts; cbn [mpp_go mpp_spec option_map]; [|reflexivity]. now rewrite render_app, render_close.
+  - destruct ts as [|t ts']; [cbn [mpp_go mpp_spec option_map]; now rewrite render_app, render_close|].
+    cbn [mpp_go mpp_spec]. destruct (split_group (t :: ts')) as [g rest].
+    destruct (accumulate g acc0 [] false) as [[a bits]|]; [|reflexivity].
+    destruct (aimag a); [reflexivity|].
+    destruct (active n a) as [|q sup'] eqn:Es.
+    + rewrite <- (IH rest [] (out ++ close cur ++ [Pad (asign a)]) (Forall_nil _)).
+      cbn [buffer_all]. f_equal. rewrite !render_app, render_close by exact Hne. cbn [render flat_map render_item]. now rewrite app_nil_r.
+    + rewrite merged_buffer_all by exact Hne.
+      destruct (overlaps (q :: sup') (flat_map snd cur)).
+      * rewrite <- (IH rest [(a, q :: sup')] (out ++ close cur)); [|constructor; [discriminate|constructor]].
+        cbn [buffer_all]. rewrite render_app, render_close by exact Hne. rewrite with_merged_eta. reflexivity.
+      * rewrite <- (IH rest (cur ++ [(a, q :: sup')]) out); [|apply Forall_app; split; [exact Hne| constructor; [discriminate|constructor]]].
+        rewrite buffer_all_app. cbn [buffer_all]. rewrite with_merged_eta. reflexivity.
+Qed.
+
+Corollary decompose_mpp_is_render n ts :
+  decompose_mpp n ts = option_map render (mpp_spec (S (List.length ts)) n ts [] []).
+Proof. unfold decompose_mpp. exact (mpp_go_is_render_of_spec (S (List.length ts)) n ts [] [] (Forall_nil _)). Qed.
+
+(* invariants of the walk: every block holds well-formed products with pairwise disjoint supports ... *)
+Definition good_block (gs : list (acc * list nat)) : Prop := Forall wfg gs /\ NoDup (flat_map snd gs).
+Definition good_item (i : item) : Prop := match i with Block gs => good_block gs | Pad _ => True end.
+
+Lemma active_NoDup n a : NoDup (active n a).
+Proof. unfold active. apply NoDup_filter, seq_NoDup. Qed.
+Lemma active_wfg n a : active n a <> [] -> wfg (a, active n a).
+Proof.
+  intros H. split; [exact H|]. cbn [fst snd]. intros q Hq. unfold active in Hq. apply filter_In in Hq. destruct Hq as [_ Hq].
+  unfold cont, pI. intros E. injection E as Ex Ez. rewrite Ex, Ez in Hq. discriminate.
+Qed.
+Lemma overlaps_false sup m : overlaps sup m = false -> forall q, In q sup -> In q m -> False.
+Proof.
+  unfold overlaps, memq. intros H q Hs Hm. assert (E : existsb (fun q0 => existsb (Nat.eqb q0) m) sup = true).
+  { apply existsb_exists. exists q. split; [exact Hs| now apply memb_true]. }
+  rewrite E in H. discriminate.
+Qed.
+Lemma close_good cur : good_block cur -> Forall good_item (close cur).
+Proof. destruct cur; intros H; cbn [close]; constructor; [exact H|constructor]. Qed.
+
+Theorem mpp_spec_blocks_good fuel n : forall ts cur out items,
+  good_block cur -> Forall good_item out -> mpp_spec fuel n ts cur out = Some items -> Forall good_item items.
+Proof.
+  induction fuel as [|fuel IH]; intros ts cur out items Hc Ho H.
+  - destruct ts; cbn [mpp_spec] in H; [|discriminate]. injection H as <-. apply Forall_app. split; [exact Ho| now apply close_good].
+  - destruct ts as [|t ts']; [cbn [mpp_spec] in H; injection H as <-; apply Forall_app; split; [exact Ho| now apply close_good]|].
+    cbn [mpp_spec] in H. destruct (split_group (t :: ts')) as [g rest].
+    destruct (accumulate g acc0 [] false) as [[a bits]|]; [|discriminate].
+    destruct (aimag a); [discriminate|].
+    destruct (active n a) as [|q sup'] eqn:Es.
+    + apply (IH _ _ _ _ (conj (Forall_nil _) (NoDup_nil _))) in H; [exact H|].
+      apply Forall_app. split; [exact Ho|]. apply Forall_app. split; [now apply close_good| constructor; [exact I|constructor]].
+    + assert (Hw : wfg (a, q :: sup')) by (rewrite <- Es; apply active_wfg; rewrite Es; discriminate).
+      assert (Hn : NoDup (q :: sup')) by (rewrite <- Es; apply active_NoDup).
+      destruct (overlaps (q :: sup') (flat_map snd cur)) eqn:Eo.
+      * apply IH in H; [exact H| |apply Forall_app; split; [exact Ho| now apply close_good]].
+        split; [constructor; [exact Hw|constructor]|]. cbn [flat_map snd]. now rewrite app_nil_r.
+      * apply IH in H; [exact H| |exact Ho]. destruct Hc as [Hcw Hcn]. split.
+        -- apply Forall_app. split; [exact Hcw| constructor; [exact Hw|constructor]].
+        -- rewrite flat_map_app. cbn [flat_map snd]. rewrite app_nil_r. apply NoDup_app_intro; [exact Hcn|exact Hn|].
+           intros x Hx Hx'. exact (overlaps_false _ _ Eo x Hx' Hx).
+Qed.
+
+(* ... and the products appear exactly once, in the order of the instruction: identity products as MPAD with their sign, the others
+   inside blocks *)
+Fixpoint products (fuel : nat) (ts : list mtgt) : option (list acc) :=
+  match ts with
+  | [] => Some []
+  | _ =>
+    match fuel with
+    | 0 => None
+    | S fuel' =>
+      let (g, rest) := split_group ts in
+      match accumulate g acc0 [] false with
+      | None => None
+      | Some (a, _) => if aimag a then None else option_map (cons a) (products fuel' rest)
+      end
+    end
+  end.
+Definition entry := (acc * list nat + bool)%type.
+Definition entries (i : item) : list entry := match i with Block gs => map inl gs | Pad s => [inr s] end.
+Definition entry_of (n : nat) (a : acc) : entry := match active n a with [] => inr (asign a) | sup => inl (a, sup) end.
+Lemma entries_close cur : flat_map entries (close cur) = map inl cur.
+Proof. destruct cur; cbn; [reflexivity| now rewrite app_nil_r]. Qed.
+
+Theorem mpp_spec_products_in_order fuel n : forall ts cur out items,
+  mpp_spec fuel n ts cur out = Some items ->
+  exists accs, products fuel ts = Some accs /\
+    flat_map entries items = flat_map entries out ++ map inl cur ++ map (entry_of n) accs.
+Proof.
+  induction fuel as [|fuel IH]; intros ts cur out items H.
+  - destruct ts; cbn [mpp_spec] in H; [|discriminate]. injection H as <-. exists []. split; [reflexivity|].
+    rewrite flat_map_app, entries_close. cbn [map]. now rewrite app_nil_r.
+  - destruct ts as [|t ts'].
+    { cbn [mpp_spec] in H. injection H as <-. exists []. split; [reflexivity|]. rewrite flat_map_app, entries_close. cbn [map]. now rewrite app_nil_r. }
+    cbn [mpp_spec products] in *. destruct (split_group (t :: ts')) as [g rest].
+    destruct (accumulate g acc0 [] false) as [[a bits]|]; [|discriminate].
+    destruct (aimag a); [discriminate|].
+    destruct (active n a) as [|q sup'] eqn:Es.
+    + apply IH in H. destruct H as (accs & Hp & He). exists (a :: accs). rewrite Hp. split; [reflexivity|].
+      rewrite He. rewrite !flat_map_app, entries_close. cbn [flat_map entries map app]. unfold entry_of at 2. rewrite Es.
+      rewrite <- !app_assoc. reflexivity.
+    + destruct (overlaps (q :: sup') (flat_map snd cur)).
+      * apply IH in H. destruct H as (accs & Hp & He). exists (a :: accs). rewrite Hp. split; [reflexivity|].
+        rewrite He. rewrite flat_map_app, entries_close. cbn [map app]. unfold entry_of at 2. rewrite Es. rewrite <- !app_assoc. reflexivity.
+      * apply IH in H. destruct H as (accs & Hp & He). exists (a :: accs). rewrite Hp. split; [reflexivity|].
+        rewrite He. rewrite map_app. cbn [map app]. unfold entry_of at 2. rewrite Es. rewrite <- !app_assoc. reflexivity.
+Qed.
+Print Assumptions mpp_go_is_render_of_spec. Print Assumptions mpp_spec_blocks_good. Print Assumptions mpp_spec_products_in_order.
+
+(* ---------- decompose_pair_instruction_into_disjoint_segments ---------- *)
+Definition qubits (seg : list (nat * nat)) : list nat := flat_map (fun p => [fst p; snd p]) seg.
+Lemma qubits_app a b : qubits (a ++ b) = qubits a ++ qubits b. Proof. apply flat_map_app. Qed.
+
+Theorem pair_segs_concat ps : forall used cur, List.concat (pair_segs ps used cur) = rev cur ++ ps.
+Proof.
+  induction ps as [|[a b] ps IH]; intros used cur; cbn [pair_segs].
+  - destruct cur; cbn [List.concat]; [reflexivity|]. now rewrite !app_nil_r.
+  - destruct (memq a used || memq b used); [cbn [List.concat]; rewrite IH; reflexivity|].
+    rewrite IH. cbn [rev]. now rewrite <- app_assoc.
+Qed.
+Corollary pair_segments_concat ps : List.concat (pair_segments ps) = ps.
+Proof. unfold pair_segments. now rewrite pair_segs_concat. Qed.
+
+Theorem pair_segs_disjoint ps : Forall (fun p => fst p <> snd p) ps -> forall used cur,
+  (forall q, In q used <-> In q (qubits (rev cur))) -> NoDup (qubits (rev cur)) ->
+  Forall (fun seg => NoDup (qubits seg)) (pair_segs ps used cur).
+Proof.
+  induction 1 as [|[a b] ps Hab Hps IH]; intros used cur Hu Hn; cbn [pair_segs].
+  - destruct cur; constructor; [exact Hn|constructor].
+  - cbn [fst snd] in Hab.
+    assert (Hpair : NoDup [a; b]) by (constructor; [intros [E|[]]; now apply Hab|constructor; [intros []|constructor]]).
+    destruct (memq a used || memq b used) eqn:E.
+    + constructor; [exact Hn|]. apply IH; cbn [rev app qubits flat_map fst snd]; [|exact Hpair].
+      intros q. cbn. tauto.
+    + apply orb_false_iff in E. destruct E as [Ea Eb]. unfold memq in Ea, Eb.
+      apply IH; cbn [rev]; rewrite qubits_app; cbn [qubits flat_map fst snd app].
+      * intros q. rewrite in_app_iff. cbn [In]. rewrite <- Hu. tauto.
+      * apply NoDup_app_intro; [exact Hn|exact Hpair|]. intros x Hx [<-|[<-|[]]]; apply Hu in Hx.
+        -- apply memb_true in Hx. rewrite Hx in Ea. discriminate.
+        -- apply memb_true in Hx. rewrite Hx in Eb. discriminate.
+Qed.
+Corollary pair_segments_disjoint ps : Forall (fun p => fst p <> snd p) ps -> Forall (fun seg => NoDup (qubits seg)) (pair_segments ps).
+Proof. intros H. apply pair_segs_disjoint; [exact H| intros q; cbn; tauto| constructor]. Qed.
+
+(* ---------- for_each_disjoint_target_segment_in_instruction_reversed ---------- *)
+Definition qvals (seg : list (option nat)) : list nat := flat_map (fun t => match t with Some q => [q] | None => [] end) seg.
+Theorem rev_segs_concat rts : forall used cur, List.concat (rev (rev_segs rts used cur)) = rev rts ++ cur.
+Proof.
+  induction rts as [|t rts IH]; intros used cur; cbn [rev_segs].
+  - destruct cur; cbn; [reflexivity| now rewrite app_nil_r].
+  - destruct t as [q|].
+    + destruct (memq q used).
+      * cbn [rev]. rewrite concat_app, IH. cbn [List.concat rev]. rewrite app_nil_r, <- app_assoc. reflexivity.
+      * rewrite IH. cbn [rev]. now rewrite <- app_assoc.
+    + rewrite IH. cbn [rev]. now rewrite <- app_assoc.
+Qed.
+(* the callback sees the segments last-to-first; read in instruction order they concatenate to the target list *)
+Corollary rev_segments_concat ts : List.concat (rev (rev_segments ts)) = ts.
+Proof. unfold rev_segments. rewrite rev_segs_concat, rev_involutive. apply app_nil_r. Qed.
+
+Theorem rev_segs_disjoint rts : forall used cur,
+  (forall q, In q used <-> In q (qvals cur)) -> NoDup (qvals cur) -> Forall (fun seg => NoDup (qvals seg)) (rev_segs rts used cur).
+Proof.
+  induction rts as [|t rts IH]; intros used cur Hu Hn; cbn [rev_segs].
+  - destruct cur; constructor; [exact Hn|constructor].
+  - destruct t as [q|].
+    + destruct (memq q used) eqn:E.
+      * constructor; [exact Hn|]. apply IH; cbn [qvals flat_map app]; [intros x; cbn; tauto| constructor; [intros []|constructor]].
+      * apply IH; cbn [qvals flat_map app].
+        -- intros x. cbn [In]. rewrite Hu. reflexivity.
+        -- constructor; [|exact Hn]. intros Hq. apply Hu in Hq. unfold memq in E. apply memb_true in Hq. rewrite Hq in E. discriminate.
+    + apply IH; cbn [qvals flat_map app]; assumption.
+Qed.
+Corollary rev_segments_disjoint ts : Forall (fun seg => NoDup (qvals seg)) (rev_segments ts).
+Proof. apply rev_segs_disjoint; [intros q; cbn; tauto| constructor]. Qed.
+Print Assumptions pair_segments_concat. Print Assumptions pair_segments_disjoint.
+Print Assumptions rev_segments_concat. Print Assumptions rev_segments_disjoint.
